@@ -9,11 +9,21 @@ import importlib
 import sys
 
 
-def _code_of(obj):
+def _code_of(obj, name=None):
     seen = 0
     while seen < 8:
         seen += 1
         if hasattr(obj, "__code__"):
+            # decorators such as lazy_property share one wrapper code object: look through the closure
+            # for the function that really carries the requested name
+            if name and obj.__name__ != name and obj.__closure__:
+                for cell in obj.__closure__:
+                    try:
+                        inner = cell.cell_contents
+                    except ValueError:
+                        continue
+                    if callable(inner) and getattr(inner, "__name__", None) == name and hasattr(inner, "__code__"):
+                        return inner.__code__
             return obj.__code__
         for attr in ("fget", "__func__", "__wrapped__", "fn", "func"):
             nxt = getattr(obj, attr, None)
@@ -35,9 +45,9 @@ def resolve(anchor):
             # look in the class __dict__ first so that descriptors are not triggered
             for klass in obj.__mro__:
                 if p in klass.__dict__:
-                    return _code_of(klass.__dict__[p])
+                    return _code_of(klass.__dict__[p], p)
         obj = getattr(obj, p)
-    return _code_of(obj)
+    return _code_of(obj, parts[-1])
 
 
 class ReachCounter:
